@@ -37,10 +37,15 @@ def copyMatch (out : ByteArray) (off : Nat) : Nat → ByteArray
   | 0 => out
   | n+1 => copyMatch (out.push (out.get! (out.size - off))) off n
 
+/-- liblz4's documented deviation: offset 0 yields zero bytes (used only to classify finding F7a) -/
+def zeros (out : ByteArray) : Nat → ByteArray
+  | 0 => out
+  | n+1 => zeros (out.push 0) n
+
 inductive Err | truncated | badOffset (seqIdx off avail : Nat) | tooLong | fuel
 deriving Repr
 
-def decodeAux (src : ByteArray) (limit : Nat) : Nat → Nat → ByteArray → Summary → Except Err (ByteArray × Summary)
+def decodeAux (src : ByteArray) (limit : Nat) (zeroOk : Bool := false) : Nat → Nat → ByteArray → Summary → Except Err (ByteArray × Summary)
   | 0, _, _, _ => .error .fuel
   | fuel+1, ip, out, sm =>
     if h : ip < src.size then
@@ -59,17 +64,23 @@ def decodeAux (src : ByteArray) (limit : Nat) : Nat → Nat → ByteArray → Su
         | none => .error .truncated
         | some (mlc, ip3) =>
           let ml := mlc + 4
-          if off = 0 ∨ off > out1.size then .error (.badOffset sm.nseq off out1.size) else
+          if (off = 0 ∧ ¬ zeroOk) ∨ off > out1.size then .error (.badOffset sm.nseq off out1.size) else
           if out1.size + ml > limit then .error .tooLong else
-          let out2 := copyMatch out1 off ml
-          decodeAux src limit fuel ip3 out2
+          let out2 := if off = 0 then zeros out1 ml else copyMatch out1 off ml
+          decodeAux src limit zeroOk fuel ip3 out2
             { nseq := sm.nseq + 1, maxOff := max sm.maxOff off, minOff := if sm.minOff = 0 then off else min sm.minOff off,
               lastMl := ml, lastLits := 0, maxMl := max sm.maxMl ml, maxLits := max sm.maxLits ll }
     else .error .truncated
 
 /-- decode `blk` with `hist` in front; `maxOut` bounds the decoded size (protection for the judge, not part of the format) -/
 def decodeA (hist blk : ByteArray) (maxOut : Nat) : Except Err (ByteArray × Summary) :=
-  match decodeAux blk (hist.size + maxOut) (blk.size + 1) 0 hist {} with
+  match decodeAux blk (hist.size + maxOut) false (blk.size + 1) 0 hist {} with
+  | .ok (out, sm) => .ok (out.extract hist.size out.size, sm)
+  | .error e => .error e
+
+/-- `SpecZ`: the specification extended by "offset 0 copies zeros" -/
+def decodeZ (hist blk : ByteArray) (maxOut : Nat) : Except Err (ByteArray × Summary) :=
+  match decodeAux blk (hist.size + maxOut) true (blk.size + 1) 0 hist {} with
   | .ok (out, sm) => .ok (out.extract hist.size out.size, sm)
   | .error e => .error e
 
